@@ -5,7 +5,7 @@ from props import coregen as G, corecheck as K, variants as V
 PID = 'C11'
 PROFILE = dict(named_cols=0.6, partial_args=0.3, inclusion=0.45, assign=0.6, lists=0.2, records=0.2, combine=0.4,
                disjunction=0.4, filter=0.4, negation=0.4, two_rules=0.3, distinct=0.35, aggregation=0.4,
-               ifthenelse=0.3, builtins=0.3, func_calls=0.6, share_names=0.5, set_agg=0.0, value_agg=0.5, implication=0.4)
+               ifthenelse=0.3, builtins=0.3, func_calls=0.6, share_names=0.5, table_funcs=0.5, dup_calls=0.5, set_agg=0.0, value_agg=0.5, implication=0.4)
 
 
 def run(tier, replay=None):
